@@ -680,7 +680,7 @@ def main(tier):
         if not dm.get("exe"):
             break
         for d in all_depths:
-            if quick and d > 12 and (d + len(tn) + ord(tn[1])) % 4 != run.seed % 4 and d not in (16, 17, 32, 33, 40):
+            if quick and d > 12 and (d + len(tn) + ord(tn[1])) % 2 != run.seed % 2 and d not in (16, 17, 32, 33, 40):
                 continue
             v0 = depth_value(tn, d, rng)
             tree = unrolled_tree(tn, v0, ddefs)
